@@ -523,6 +523,15 @@ class Terms:
         if k == "const":
             if "fn" in o:
                 return ("fnitem", callee_str(o["fn"]))
+            if "promoted" in o and depth < self.max_depth:
+                # a promoted constant of this body (`&Some(ECHILD)`, `&SHELL[1..]`): evaluate its tiny body
+                proms = self.fn.j.get("promoted") or []
+                i = o["promoted"]
+                if 0 <= i < len(proms) and o.get("name") == self.fn.path:
+                    pj = {"path": self.fn.path + "::promoted[%d]" % i, "file": self.fn.file, "line": self.fn.line, "body": proms[i]}
+                    pt = Terms(Fn(self.fn.prog, pj), self.max_depth).local(0)
+                    if not _has_local(pt):
+                        return pt
             if "int" in o:
                 return ("const", o["int"], o.get("name"))
             if "str" in o:
